@@ -3,6 +3,9 @@
 import json, subprocess
 ALL = ["C%02d" % i for i in range(1, 21)]
 CLAIMED = {
+ "C14": dict(level="exploration", technique="runtime monitor with canary-judged bounded progress: script families x timeout settings x positions executed on the real engine, outcome and return time observed at the API boundary",
+   text="Each script family (value, throwing, invalid, non-terminating, slow-but-finishing) is run as RunJavascript, as a rule condition and as a rule action under a location-control timeout, the system default and with timeouts disabled; non-terminating scripts must come back as failures not before and boundedly after the limit, throwing/invalid ones as errors, finishing ones with their value and exactly their bindings.",
+   note="A hang is a violation only when a canary timer armed in the same runtime fired on time and the call is still blocked 12 s later; scripts blocked inside host functions are out of reach.", ref="§5 C14"),
  "C19": dict(level="exploration", technique="runtime matrix monitor with a twin-location differential: every operation x protection state x caller, before/after snapshots of raw storage and live items for refusals, unprotected twin for allowed calls",
    text="All 25 operations (direct, via RunJavascript, via a rule action) are executed under all 6 protection states and 3 callers on generated contents of both state kinds; a refusal must be an error with byte-identical storage and live state, an allowed call must equal the unprotected twin; the finite matrix is enumerated completely per content seed.",
    note="Matrix as stated in DESIGN §5 C19 (RuleEnabled, GetParents, SetProp/RemProp and StateSize-when-disabled are outside it); core.Location level.", ref="§5 C19"),
